@@ -2,7 +2,7 @@ use crate::{
   config::processed::OverflowPolicy,
   error_handling::{InternalErrorReport, InternalErrorSource},
   model::LogEvent,
-  subscriber::actor::{ActorAction, AppenderActor},
+  subscriber::actor::{target_matches_prefix, ActorAction, AppenderActor},
 };
 use fibre::{
   error::TrySendError as FibreTrySendError, mpsc::BoundedSyncSender as FibreMpscBoundedSender,
@@ -15,6 +15,11 @@ pub(crate) struct EventProcessor {
   actors: Vec<AppenderActor>,
   error_tx: Option<FibreMpscBoundedSender<InternalErrorReport>>,
   max_level: LevelFilter,
+  /// Every configured non-root logger as `(name, additive)`, including the
+  /// ones that name no appender: the additivity gate is decided by the most
+  /// specific logger matching the event across ALL loggers, and a logger
+  /// without appenders appears in no actor's rule set.
+  logger_gates: Vec<(String, bool)>,
 }
 
 impl EventProcessor {
@@ -31,7 +36,14 @@ impl EventProcessor {
       actors,
       error_tx,
       max_level,
+      logger_gates: Vec::new(),
     }
+  }
+
+  /// Supplies the `(name, additive)` list of all configured non-root loggers.
+  pub(crate) fn with_logger_gates(mut self, gates: Vec<(String, bool)>) -> Self {
+    self.logger_gates = gates;
+    self
   }
 
   /// The most permissive level any appender can accept. Used as the global
@@ -91,6 +103,16 @@ impl EventProcessor {
     for (prefix, (_, additive)) in rules.iter().flatten() {
       if winner.map_or(true, |(wp, _)| prefix.len() > wp.len()) {
         winner = Some((*prefix, *additive));
+      }
+    }
+    // Loggers that name no appender are in no actor's rules but still take
+    // part in deciding which logger is the most specific one.
+    let event_target = metadata.target();
+    for (name, additive) in &self.logger_gates {
+      if target_matches_prefix(event_target, name)
+        && winner.map_or(true, |(wp, _)| name.len() > wp.len())
+      {
+        winner = Some((name.as_str(), *additive));
       }
     }
     let non_additive_gate: Option<&str> = match winner {
